@@ -161,7 +161,7 @@ def _run(repo, client):
 
 @rule(
     "ORDER-TAINT",
-    ["C12", "C13"],
+    ["C12", "C13", "C14"],
     "forward taint analysis over the whole package (flow-sensitive via reaching definitions, "
     "interprocedural summaries, record fields by name): an unordered collection with unstable "
     "element hashes (str, L.Symbol, basix elements, UFL objects) that is iterated / converted to "
@@ -199,8 +199,15 @@ def order_taint(repo, res):
                 f"{sink} in {fkey} ({loc}) as {kind}" + (f" (+{others} more sinks)" if others else "")
                 + ": generated text depends on PYTHONHASHSEED",
                 _loc_of(repo, s),
+                props=_props_for(hits),
             )
     res.notes.append(f"taint fixpoint after {eng.iterations} rounds over {len(eng.fas)} functions; {len(sources)} unstable set sources")
+
+
+def _props_for(hits):
+    """C12/C13 always; C14 (one build per module among concurrent processes) only when a module / object name is affected."""
+    names = any(("signature" in str(h[0]) or "hashlib" in str(h[0]) or "naming" in str(h[1]) or "name" in str(h[0])) for h in hits)
+    return ("C12", "C13", "C14") if names else ("C12", "C13")
 
 
 def _loc_of(repo, site):
@@ -214,7 +221,7 @@ def _loc_of(repo, site):
 
 @rule(
     "HISTORY-ID",
-    ["C12", "C13"],
+    ["C12", "C13", "C14"],
     "values that depend on process history (ufl_id(), builtin id(), zero-argument .count(), hash(), "
     "clocks, pids, random, temp names) must not flow into LNodes construction, templates, object "
     "names or signature hashes; allowed: id(obj) used as the key of a `.get` lookup, count() used as "
@@ -236,6 +243,7 @@ def history_id(repo, res):
             + (f" (+{len(hits) - 1} more sinks)" if len(hits) > 1 else "")
             + ": names / text / signatures differ between processes",
             _loc_of(repo, s),
+            props=_props_for(hits),
         )
 
 
